@@ -12,6 +12,7 @@
 //!  M  markup converters: GDSII file -> to_markup -> from_markup -> GDSII file, bytes identical.
 
 use crate::core::*;
+use crate::explore::Chooser;
 use crate::props::c15;
 use gds21::*;
 use layout21utils::ser::SerializationFormat;
@@ -635,6 +636,88 @@ pub fn resource_files(ext: &str) -> Vec<String> {
     out
 }
 
+
+// ---------------------------------------------------------------------------------------------
+// Generator-driven structure parts: the C01 GDSII value generator and the C04 LEF value generator
+// ---------------------------------------------------------------------------------------------
+
+/// GDSII library values from the shared C01/C02 generator (families single + pairs: every element kind,
+/// every optional-field subset, witness values, strings, reals), each through both formats and both paths.
+pub struct C18Gds;
+impl CaseDriver for C18Gds {
+    type Case = crate::props::gdsgen::GenCase;
+    fn id(&self) -> &'static str {
+        "C18"
+    }
+    fn describe(&self, tier: Tier) -> Describe {
+        Describe {
+            rule: format!("GDSII library values from the C01 generator (family single; thorough also pairs: all 7 element kinds, every subset of optional fields, strans variants, properties, witness integers, strings over {{a, B, e-acute, euro, space, NUL}}, reals from the C15 slice), every choice sequence with <= {} value deviations, x {{Json, Yaml}} x {{to_string+from_str, save+open}}. State = one library value.", self.bound(tier)),
+            assumptions: vec![],
+            excluded: vec![],
+            technique: "deviation-bounded exhaustive enumeration of library values through the real serialisation helpers".into(),
+        }
+    }
+    fn bound(&self, t: Tier) -> usize {
+        t.pick(0, 1)
+    }
+    fn gen(&self, t: Tier, c: &mut Chooser) -> Self::Case {
+        crate::props::gdsgen::gen_lib(t, c, if t.is_thorough() { &[0, 1] } else { &[0] })
+    }
+    fn check(&self, case: &Self::Case, key: &str, cx: &mut Cx) {
+        let lib = crate::props::gdsgen::to_gds(&case.lib);
+        cx.state(crate::props::gdsgen::hash_of(&case.lib), key.contains(|c: char| c != '0' && c != '.'));
+        cx.tag("gdsgen");
+        C18.check_gds(&lib, key, "generated GDSII library", |_, _| None, cx);
+    }
+    fn render(&self, case: &Self::Case) -> Value {
+        crate::props::gdsgen::render_lib(&case.lib)
+    }
+    fn guards(&self, _t: Tier, stats: &Stats, _d: u64) -> Result<(), String> {
+        require_tags(stats, &["gdsgen"])
+    }
+    fn unit_target(&self, _t: Tier) -> usize {
+        1024
+    }
+}
+
+/// LEF library values from the shared C04 generator (17 foci: every field and enum variant of the data model).
+pub struct C18Lef;
+impl CaseDriver for C18Lef {
+    type Case = (&'static str, LefLibrary);
+    fn id(&self) -> &'static str {
+        "C18"
+    }
+    fn describe(&self, tier: Tier) -> Describe {
+        Describe {
+            rule: format!("LEF library values from the C04 generator (17 foci covering every statement, field and enum variant of the data model), every choice sequence with <= {} value deviations, x {{Json, Yaml}} x {{to_string+from_str, save+open}}. State = one library value.", self.bound(tier)),
+            assumptions: vec![],
+            excluded: vec![],
+            technique: "deviation-bounded exhaustive enumeration of library values through the real serialisation helpers".into(),
+        }
+    }
+    fn bound(&self, t: Tier) -> usize {
+        t.pick(1, 2)
+    }
+    fn gen(&self, _t: Tier, c: &mut Chooser) -> Self::Case {
+        crate::props::lefgen::gen_library(c)
+    }
+    fn check(&self, case: &Self::Case, key: &str, cx: &mut Cx) {
+        cx.state(hash_debug(&case.1), key.contains(|c: char| c != '0' && c != '.'));
+        cx.tag("lefgen");
+        cx.tag(&format!("lef-focus:{}", case.0));
+        C18.check_lef(&case.1, key, &format!("generated LEF library (focus {})", case.0), cx);
+    }
+    fn render(&self, case: &Self::Case) -> Value {
+        json!({"focus": case.0, "library": truncate(&format!("{:?}", case.1), 3000)})
+    }
+    fn guards(&self, _t: Tier, stats: &Stats, _d: u64) -> Result<(), String> {
+        require_tags(stats, &["lefgen", "lef-focus:macro_attrs", "lef-focus:pin_attrs", "lef-focus:units", "lef-focus:site", "lef-focus:property"])
+    }
+    fn unit_target(&self, _t: Tier) -> usize {
+        1024
+    }
+}
+
 pub fn driver() -> Box<dyn Driver> {
-    Box::new(C18)
+    Box::new(Multi { id: "C18", parts: vec![("values", Box::new(C18)), ("gdsgen", Box::new(ByCase(C18Gds))), ("lefgen", Box::new(ByCase(C18Lef)))] })
 }
